@@ -2072,6 +2072,147 @@ def r9_resolution_order_kept(ctx, rid):
     ctx.require(n >= 2, f"{rid}: only {n} positional uses of a get_nodes result found in {REL}")
 
 
+# --------------------------------------------------------------------------------------------
+# R10 — update_var writes only into template objects that a single node holds
+# --------------------------------------------------------------------------------------------
+
+def r10_in_place_write_only_on_unshared(ctx, rid):
+    """update_var('<path>/op/var') may change exactly the nodes the path denotes.  Node templates are shared objects (several nodes
+    of a circuit, other circuits), so a template is written only (a) when it is a copy made for this node in this iteration, or
+    (b) when it was looked up / re-used and a registry licenses the write (`id(x) in R`) - and then R must contain only objects
+    that ONE node holds: an object that is re-used for a further node (read back from a container and handed to
+    add_node_template again) while it may be registered in R has to be removed from R on that path.  Otherwise a later, narrower
+    key writes into a template that sibling nodes hold too, and the path no longer denotes only the nodes it names."""
+    f = ctx.repo.get_func(REL, f"{CLS}.update_var")
+    rd = ctx.rd(f)
+    cfg = ctx.cfg(f)
+    eff = ctx.effects
+    COPY = {"deepcopy", "copy", "update_template"}
+
+    def kinds(name: ast.Name, depth=3):
+        """[(kind, def stmt, value)]: kind in copy / lookup / reuse / other"""
+        out = []
+        for d in rd.defs_reaching(name):
+            v = assigned_value(d, name.id)
+            if v is None:
+                out.append(("other", d, None))
+            elif isinstance(v, ast.Call) and call_name(v) in COPY:
+                out.append(("copy", d, v))
+            elif isinstance(v, ast.Call) and call_name(v) == "get_node_template":
+                out.append(("lookup", d, v))
+            elif isinstance(v, ast.Subscript):
+                base = v
+                while isinstance(base, ast.Subscript):
+                    base = base.value
+                out.append(("reuse", d, v) if isinstance(base, ast.Name) else ("other", d, v))
+            elif isinstance(v, ast.Name) and depth > 0:
+                out += [(k, d, vv) for k, _, vv in kinds(v, depth - 1)]
+            else:
+                out.append(("other", d, v))
+        return out
+
+    def is_template_write(c: ast.Call) -> bool:
+        if not (isinstance(c.func, ast.Attribute) and isinstance(c.func.value, ast.Name) and c.func.value.id != f.self_name):
+            return False
+        ts, how = ctx.cg.resolve_call(f, c)
+        ts = [t for t in ts if t.cls is not None and t.cls.name != CLS]
+        if ts and not str(how).startswith("unresolved") and how != "external":
+            return any(any(pp == t.self_name for pp, _ in eff.mutates(t, None)) for t in ts)
+        return False
+
+    def licences(node):
+        """registries R with `id(x) in R` / `x in R` holding on the way to `node` (enclosing if-branches, positive polarity)"""
+        out = []
+        for anc in ancestors(node):
+            if isinstance(anc, ast.If) and any(contains(b, node) for b in anc.body):
+                for t in ([anc.test] + (list(anc.test.values) if isinstance(anc.test, ast.BoolOp) and isinstance(anc.test.op, ast.And) else [])):
+                    if isinstance(t, ast.Compare) and len(t.ops) == 1 and isinstance(t.ops[0], ast.In) and isinstance(t.comparators[0], ast.Name):
+                        out.append((t.comparators[0].id, t.left))
+        return out
+    writes = [c for c in ordered(walk_shallow(f.node)) if isinstance(c, ast.Call) and is_template_write(c)]
+    ctx.require(writes, f"{rid}: no in-place update of a node template found in update_var (anchor vanished)")
+    licence_regs = set()
+    seen: Dict[str, int] = {}
+    for c in writes:
+        x = c.func.value
+        txt = norm(c)
+        seen[txt] = seen.get(txt, 0) + 1
+        label = f"in-place write {txt}" + (f" #{seen[txt]}" if seen[txt] > 1 else "")
+        ks = kinds(x)
+        if not ks or any(k == "other" for k, _, _ in ks):
+            raise AnalysisError(f"{rid}: cannot tell where the template `{x.id}` written by `{txt}` comes from (unrecognised form)")
+        if all(k == "copy" for k, _, _ in ks):
+            ctx.ok(rid, f, c, f"`{x.id}` is a copy made for this node before it is written", label=label)
+            continue
+        lic = [r for r, key in licences(c) if any(isinstance(n, ast.Name) and n.id == x.id for n in ast.walk(key))]
+        if not lic:
+            ctx.violation(rid, f, c, f"`{txt}` writes into the template object that get_node_template returned (or that was re-used from a "
+                                     f"container) without copying it: node templates are shared between nodes and circuits, so nodes "
+                                     f"that the path does not denote change too", label=label)
+            continue
+        licence_regs |= set(lic)
+        ctx.ok(rid, f, c, f"`{x.id}` is written in place only when it is registered in {sorted(set(lic))}", label=label)
+    # ---- a licence registry holds only objects of ONE node
+    for R in sorted(licence_regs):
+        def stores_into(cont):
+            """[(stmt, names stored)] for `cont[...] = value` stores"""
+            out = []
+            for st in walk_shallow(f.node):
+                if isinstance(st, ast.Assign):
+                    for t in st.targets:
+                        if isinstance(t, ast.Subscript) and isinstance(t.value, ast.Name) and t.value.id == cont:
+                            out.append((st, [n for n in ast.walk(st.value) if isinstance(n, ast.Name) and isinstance(n.ctx, ast.Load)]))
+            return out
+        reg_stores = stores_into(R)
+        for st, names in reg_stores:
+            for n in names:
+                if any(k in ("lookup", "reuse", "other") for k, _, _ in kinds(n)):
+                    raise AnalysisError(f"{rid}: `{norm(st)}` registers an object that is not a fresh copy in `{R}` (unrecognised form)")
+        registered_defs = {id(d) for st, names in reg_stores for n in names for d in rd.defs_reaching(n)}
+
+        def removes(st, y: str) -> bool:
+            for c in ([st.value] if isinstance(st, ast.Expr) else []) + [n for n in ast.walk(st) if isinstance(n, ast.Call)]:
+                if isinstance(c, ast.Call) and isinstance(c.func, ast.Attribute) and isinstance(c.func.value, ast.Name) and c.func.value.id == R \
+                        and c.func.attr in ("pop", "discard", "remove", "__delitem__") and c.args \
+                        and any(isinstance(n, ast.Name) and n.id == y for n in ast.walk(c.args[0])):
+                    return True
+            if isinstance(st, ast.Delete):
+                return any(isinstance(t, ast.Subscript) and isinstance(t.value, ast.Name) and t.value.id == R
+                           and any(isinstance(n, ast.Name) and n.id == y for n in ast.walk(t.slice)) for t in st.targets)
+            return False
+        hand_overs = [c for c in ordered(walk_shallow(f.node)) if isinstance(c, ast.Call) and call_name(c) == "add_node_template"]
+        ctx.require(hand_overs, f"{rid}: update_var no longer hands templates to add_node_template (anchor vanished)")
+        for c in hand_overs:
+            y = {k.arg: k.value for k in c.keywords}.get("template") or (c.args[1] if len(c.args) > 1 else None)
+            if not isinstance(y, ast.Name):
+                raise AnalysisError(f"{rid}: `{norm(c)}` hands over something else than a local (unrecognised form)")
+            label = f"registry {R}: objects handed to {norm(c)}"
+            bad = None
+            for k, d, v in kinds(y):
+                if k != "reuse":
+                    continue
+                # the object comes back out of a container: it was given to an earlier node already.  May it be registered in R?
+                base = v
+                while isinstance(base, ast.Subscript):
+                    base = base.value
+                both = any(any(id(dd) in registered_defs for dd in rd.defs_reaching(n)) for st, names in stores_into(base.id) for n in names)
+                if not both:
+                    continue
+                st_c = stmt_of(cfg, c)
+                path = cfg.reachable_avoiding(d, st_c, lambda n_: isinstance(n_, ast.stmt) and removes(n_, y.id))
+                if path is not None:
+                    bad = (d, base.id, cfg.path_str(path))
+            if bad is None:
+                ctx.ok(rid, f, c, f"no object that is handed to a further node stays registered in `{R}`", label=label)
+            else:
+                d, cont, witness = bad
+                ctx.violation(rid, f, d, f"`{norm(d)}` takes a template back out of `{cont}` - it was given to an earlier node already - and "
+                                         f"`{norm(c)}` hands it to this node as well, while the same object may still be registered in `{R}`, "
+                                         f"which licenses in-place writes: a later key that addresses only one of these nodes writes into the "
+                                         f"template all of them hold, so nodes outside the path change too",
+                              {"witness": witness}, label=label)
+
+
 RULES = [
     ("C06-R1", r1_namespaces, 11),     # 22 on the pinned tree; merging duplicated look-ups into helpers lowers the count
     ("C06-R2", r2_label_data_lockstep, 4),
@@ -2082,4 +2223,5 @@ RULES = [
     ("C06-R7", r7_per_node_decision_not_shared, 2),      # one per outermost loop of the resolver closure (+ one per memo)
     ("C06-R8", r8_column_index_by_presence, 1),
     ("C06-R9", r9_resolution_order_kept, 2),
+    ("C06-R10", r10_in_place_write_only_on_unshared, 1),
 ]
